@@ -273,6 +273,9 @@ func c14Tuples(c c14Callable, thorough bool) [][]c14Arg {
 	kinds = append(kinds, c.fixed...)
 	var out [][]c14Arg
 	maxVar := 2
+	if thorough {
+		maxVar = 3
+	}
 	for nv := 0; nv <= maxVar; nv++ {
 		if c.vari == reflect.Invalid && nv > 0 {
 			break
